@@ -915,6 +915,10 @@ func (st *Stack) Clean() error {
 
 		fn := filepath.Join(st.reftableDir, name)
 		bs, err := NewFileBlockSource(fn)
+		if os.IsNotExist(err) {
+			// Somebody else removed it in the meantime.
+			continue
+		}
 		if err != nil {
 			return err
 		}
